@@ -596,6 +596,9 @@ func init() {
 			return
 		}
 		checkNoStructBypass(r, prog, a, "c08")
+		r.importing = "C18"
+		checkOptionConstructors(r, prog, "c18") // the tag name that hides a field is the tag name that was given, as given
+		r.importing = ""
 		r.importing = "C05"
 		checkValueLookup(r, prog, a, "c05")
 		r.importing = "C18"
